@@ -19,7 +19,7 @@ Theorem negotiated_is_min :
     (c_expected_asn c = 0 \/ c_expected_asn c = asn) ->
     let c' := fst (on_open c asn id hold caps) in
     let outs := snd (on_open c asn id hold caps) in
-    let h := hold_in_force (c_local_hold c) hold in
+    let h := hold_in_force (open_hold (c_local_hold c)) hold in
     c_state c' = OpenConfirm
     /\ c_neg_hold c' = h
     /\ (h <> 0 -> c_ka c' = keepalive_of h /\ In (SetKa (keepalive_of h)) outs /\ In (SetHold h) outs).
@@ -30,7 +30,7 @@ Check negotiated_is_min :
     (c_expected_asn c = 0 \/ c_expected_asn c = asn) ->
     let c' := fst (on_open c asn id hold caps) in
     let outs := snd (on_open c asn id hold caps) in
-    let h := hold_in_force (c_local_hold c) hold in
+    let h := hold_in_force (open_hold (c_local_hold c)) hold in
     c_state c' = OpenConfirm
     /\ c_neg_hold c' = h
     /\ (h <> 0 -> c_ka c' = keepalive_of h /\ In (SetKa (keepalive_of h)) outs /\ In (SetHold h) outs).
